@@ -69,6 +69,71 @@ func runC07(c *Ctx) {
 		}
 	}
 	c.sum.Exhaustive = true
+	// claims that ALSO contain something invalid: the time issues change neither that they block without time
+	// checks nor what is counted (an authorization response may be a rejection: error set, no token)
+	spoil := func(cl jwt.Claims) bool {
+		switch x := cl.(type) {
+		case *jwt.OperatorClaims:
+			x.SigningKeys.Add("not-a-key")
+		case *jwt.AccountClaims:
+			x.SigningKeys.Add("not-a-key")
+		case *jwt.UserClaims:
+			x.IssuerAccount = "not-a-key"
+		case *jwt.ActivationClaims:
+			x.IssuerAccount = "not-a-key"
+		case *jwt.AuthorizationRequestClaims:
+			x.UserNkey = "not-a-key"
+		case *jwt.AuthorizationResponseClaims:
+			x.IssuerAccount = "not-a-key"
+		default:
+			return false
+		}
+		return true
+	}
+	for _, kind := range kindNames {
+		for _, exp := range []int64{0, now - 1000, now + 1000} {
+			for _, nbf := range []int64{0, now - 1000, now + 1000} {
+				for variant := 0; variant < 2; variant++ {
+					cl := g.clean(kind)
+					if variant == 0 {
+						if !spoil(cl) {
+							continue
+						}
+					} else if ar, ok := cl.(*jwt.AuthorizationResponseClaims); ok {
+						ar.Error, ar.Jwt = "denied", "" // a rejection response is clean claims too
+					} else {
+						continue
+					}
+					cd := cl.Claims()
+					cd.Expires, cd.NotBefore = exp, nbf
+					o := observeValidate(cl)
+					c.sum.Evaluations++
+					c.sum.ImplChecks++
+					want := 0
+					if exp > 0 && o.Now > exp {
+						want++
+					}
+					if nbf > 0 && nbf > o.Now {
+						want++
+					}
+					inp := map[string]interface{}{"kind": kind, "exp": exp, "nbf": nbf, "now": o.Now, "time_issues": o.Time, "expected": want,
+						"blocking": o.Blocking, "blocking_with_time_checks": o.BlockingT, "also_invalid": variant == 0}
+					switch {
+					case o.Panic != "":
+						c.violation("C11: Validate panicked: "+o.Panic, inp)
+					case o.Time != want:
+						c.violation("C07: wrong number of time-check issues", inp)
+					case variant == 0 && (!o.Blocking || !o.BlockingT):
+						c.violation("C07: a time-check issue hides a blocking issue", inp)
+					case variant == 1 && (o.Blocking || o.BlockingT != (want > 0)):
+						c.violation("C07: IsBlocking does not follow the time-check issues (rejection response)", inp)
+					}
+					w.add(vcaseCoq(cl, o), inp)
+					c.count("with_blocking_issue_or_rejection")
+				}
+			}
+		}
+	}
 	nr := 100
 	if c.thorough() {
 		nr = 3000
@@ -91,7 +156,7 @@ func runC07(c *Ctx) {
 	}
 	w.flush()
 	c.sum.DistinctNontriv = len(distinct)
-	c.sum.Rule = "7 kinds x the 9x9 grid of (expiry, not-before) over {min-int64, -1, 0, 1, now-1e9, now-3, now+3, now+1e9, max-int64} (complete) plus random pairs, on clean claims of each kind, skipping values within 2 seconds of the observed clock second; observed: number of issues with TimeCheck set, IsBlocking(false), IsBlocking(true); non-trivial = distinct (kind, exp set, nbf set, count)"
+	c.sum.Rule = "7 kinds x the 9x9 grid of (expiry, not-before) over {min-int64, -1, 0, 1, now-1e9, now-3, now+3, now+1e9, max-int64} (complete) plus random pairs, on clean claims of each kind (and, on a 3x3 grid, on claims that also hold a blocking violation and on rejection responses), skipping values within 2 seconds of the observed clock second; observed: number of issues with TimeCheck set, IsBlocking(false), IsBlocking(true); non-trivial = distinct (kind, exp set, nbf set, count)"
 }
 
 func runC10(c *Ctx) {
@@ -202,6 +267,18 @@ func runC10(c *Ctx) {
 							t2, _ := ac.Encode(exporter.kp)
 							a, b := splitTok(tok), splitTok(t2)
 							tok, how = a[0]+"."+b[1]+"."+a[2], "spliced payload"
+						}
+					}
+					// what the signed token says counts, not what a caller did to claims decoded from the same text earlier:
+					// decode it, and edit the returned object so that IT would satisfy (or violate) every binding
+					if c.Rng.Intn(2) == 0 {
+						if draft, err := jwt.DecodeActivationClaims(tok); err == nil && draft != nil {
+							if c.Rng.Intn(2) == 0 {
+								draft.ImportSubject, draft.ImportType, draft.Subject = ">", kind, importer.pub
+								draft.Issuer, draft.IssuerAccount = exporter.pub, ""
+							} else {
+								draft.ImportSubject, draft.ImportType, draft.Subject = "nothing.at.all", 3-kind, other.pub
+							}
 						}
 					}
 					im := &jwt.Import{Name: "x", Subject: jwt.Subject(subj), Account: exporter.pub, Token: tok, Type: kind}
